@@ -15,7 +15,10 @@ KEX_VARIANTS = [
     ['gss-gex-sha1-dZuIebMjgUqaxvbF7hDbAw==', 'curve25519-sha256', 'gss-group14-sha256-a+b/c0=='],
     ['curve25519-sha256@libssh.org', 'kex+odd/name@example.org', 'kex-strict-s-v00@openssh.com'],
     ['sntrup761x25519-sha512@openssh.com', 'ext-info-s'],
+    ['diffie-hellman-group-exchange-sha1', 'curve25519-sha256', 'diffie-hellman-group-exchange-sha256'],
 ]
+GEX1, GEX256 = 'diffie-hellman-group-exchange-sha1', 'diffie-hellman-group-exchange-sha256'
+GEX_PAIRS = [(2048, 3072), (3072, 3072), (1024, 4096), (4096, 2048)]     # (sha1, sha256) moduli of a server offering both
 ENC_VARIANTS = [['aes256-ctr'], ['chacha20-poly1305@openssh.com', 'aes128-ctr', 'aes128-cbc'], ['aes256-gcm@openssh.com', 'enc+odd/name@example.org']]
 MAC_VARIANTS = [['hmac-sha2-256'], ['umac-128-etm@openssh.com', 'hmac-sha2-512', 'hmac-sha1']]
 KEY_CONFIGS = [
@@ -36,7 +39,8 @@ FIELD = {'kex': 'Key exchanges', 'key': 'Host keys', 'enc': 'Ciphers', 'mac': 'M
 def peers(tier):
     out = []
     for (kn, keys, kw), kexv, encv, macv in itertools.product(KEY_CONFIGS, range(len(KEX_VARIANTS)), range(len(ENC_VARIANTS)), range(len(MAC_VARIANTS))):
-        gexs = GEX_SIZES if any('group-exchange' in k for k in KEX_VARIANTS[kexv]) else [None]
+        ngex = sum(1 for k in KEX_VARIANTS[kexv] if 'group-exchange' in k)
+        gexs = [None] if ngex == 0 else (GEX_SIZES if ngex == 1 else [{GEX1: a, GEX256: b} for a, b in GEX_PAIRS])
         for g in gexs:
             spec = {'kn': kn, 'kex': KEX_VARIANTS[kexv], 'key': keys, 'enc': ENC_VARIANTS[encv], 'mac': MAC_VARIANTS[macv], 'hk': kw, 'gex': g}
             out.append(spec)
@@ -53,7 +57,8 @@ def peers(tier):
 
 def make_server(spec):
     hk = P.standard_host_keys(spec['key'], **spec['hk'])
-    gex = P.GexPolicy([spec['gex']], P.STRICT) if spec.get('gex') else None
+    g = spec.get('gex')
+    gex = ({a: P.GexPolicy([v], P.STRICT) for a, v in g.items()} if isinstance(g, dict) else P.GexPolicy([g], P.STRICT)) if g else None
     return P.Server(kex=spec['kex'], key=spec['key'], enc=spec['enc'], mac=spec['mac'], enc_c2s=spec.get('enc_c2s'), mac_c2s=spec.get('mac_c2s'),
                     host_keys=hk, gex=gex, banner=b'SSH-2.0-dropbear_2022.83')
 
@@ -101,7 +106,14 @@ def perturbations(spec, role):
             s = copy.deepcopy(spec)
             s['hk'] = dict(hk, ca='rsa', ca_bits=4096)
             out.append(('ca-type', 'CA signature type', s))
-        if spec.get('gex'):
+        if isinstance(spec.get('gex'), dict):
+            for alg in sorted(spec['gex']):
+                for g in GEX_SIZES:
+                    if g != spec['gex'][alg]:
+                        s = copy.deepcopy(spec)
+                        s['gex'][alg] = g
+                        out.append(('modulus-size-one-of-two', 'Group exchange (%s)' % alg, s))
+        elif spec.get('gex'):
             for g in GEX_SIZES:
                 if g != spec['gex']:
                     s = copy.deepcopy(spec)
